@@ -1,8 +1,11 @@
 ----------------------------- MODULE Replica_MC -----------------------------
 EXTENDS Replica, ReplicaProbe, Json
 KindsAll == {"transfer", "witness0", "deploy0", "evm"}
+KindsChain == KindsAll \cup {"setparam"}
 Needs == {"transfer", "witness0"}
-StateOut == [digestA |-> digestA, digestB |-> digestB]
+Fees == {"transfer"}
+StateOut0 == 0
+StateOut == [digestA |-> digestA, digestB |-> digestB, param |-> param, gA |-> gA, gB |-> gB, nrestart |-> nrestart]
 Edge == PrintT(<<"EDGE", ToJson([from |-> StateOut, act |-> act', to |-> StateOut'])>>)
 InitOut == (TLCGet("level") = 1) => PrintT(<<"INIT", ToJson(StateOut)>>)
 =============================================================================
